@@ -1087,5 +1087,6 @@ func TestProp(t *testing.T) {
 		h.Rapid("sequential_rapid", h.Opt{Quick: 150000, Thorough: 3000000}, draw, run),
 		h.Rapid("concurrent_linearizable", h.Opt{Quick: 20000, Thorough: 400000}, drawC, runC),
 		h.Rapid("concurrent_stats", h.Opt{Quick: 600, Thorough: 20000}, drawS, runS),
+		h.Rapid("concurrent_stress", h.Opt{Quick: 800, Thorough: 30000}, drawX, runX),
 	)
 }
